@@ -138,7 +138,7 @@ fn random_table(r: &mut StdRng) -> TableAut {
     }
     let delta: Vec<Vec<usize>> = (0..n).map(|_| (0..ncls).map(|_| r.gen_range(1, n + 1)).collect()).collect();
     let matches: Vec<bool> = (0..n).map(|_| r.gen_range(0, 2) == 0).collect();
-    let mut t = TableAut { n, start: 1, cls, delta, matches, can: vec![true; n], always: vec![false; n] };
+    let mut t = TableAut { n, start: 1, cls, delta, matches, can: vec![true; n], always: vec![false; n], eof: vec![] };
     t.exact_hints();
     let p = *pick(r, &[0u32, 50, 100]);
     t.weaken_hints(r, p);
